@@ -20,6 +20,12 @@ HEAVY = set(INSERTS) | {'remove', 'remove_subtree'}
 
 def weight(job):
     w = {0: 0.1, 1: 0.3, 2: 2, 3: 15, 4: 60, 5: 200, 6: 600}.get(job['N'], 1000)
+    if job.get('kind') == 'custom' and job.get('func') == 'run_clone_job':
+        return {0: 0.1, 1: 0.5, 2: 8, 3: 150}.get(job['N'], 1000)
+    if job.get('kind') == 'custom' and job.get('module') in ('values', 'lookups'):
+        return 0.2
+    if job.get('kind') == 'custom':
+        return {1: 0.2, 2: 2, 3: 25, 4: 200}.get(job['N'], 1000)
     if job.get('kind') in ('iter', 'pair', 'deiter'):
         return {1: 0.1, 2: 0.3, 3: 1, 4: 8, 5: 140, 6: 300}.get(job['N'], 1000) * (3 if job['kind'] != 'iter' else 1)
     if job['op'] not in HEAVY: w *= 0.15
@@ -76,8 +82,49 @@ def iter_jobs(prop, tier):
     return jobs
 
 
+def multi_jobs(prop, tier):
+    jobs = []
+    nmax = 3 if tier == 'quick' else 4
+    for N in range(1, nmax + 1):
+        if prop == 'C06':
+            for how in ('remove', 'remove_subtree'):
+                jobs.append({'kind': 'custom', 'module': 'multistep', 'func': 'run_cycle_job', 'name': 'cycle_' + how, 'op': 'cycle_' + how, 'how': how,
+                             'N': N, 'cfg': 'dev', 'feat': 'std', 'props': [prop]})
+        if prop == 'C07':
+            for first in (None, 'remove', 'remove_subtree'):
+                jobs.append({'kind': 'custom', 'module': 'multistep', 'func': 'run_drain_job', 'name': 'drain_after_%s' % first, 'op': 'drain_after_%s' % first,
+                             'first': first, 'N': N, 'cfg': 'dev', 'feat': 'std', 'props': [prop]})
+    return jobs
+
+
+def lookup_jobs(prop, tier):
+    import replay
+    r = replay.run_script(['sizeof'], 'dev').get(0)
+    sizes = sorted(set(int(x) for x in r[1].split())) if r and r[0] == 'OK' else [104]
+    jobs = []
+    for N in range(0, (5 if tier == 'quick' else 7)):
+        for sz in (sizes if tier == 'thorough' else sizes[:2]):
+            jobs.append({'kind': 'custom', 'module': 'lookups', 'func': 'run_lookup_job', 'name': 'lookups', 'op': 'lookups', 'N': N, 'size': sz,
+                         'cfg': 'dev', 'feat': 'std', 'props': [prop]})
+    return jobs
+
+
+def value_jobs(prop, tier):
+    jobs = [{'kind': 'custom', 'module': 'values', 'func': 'run_base_job', 'name': 'constructors', 'op': 'constructors', 'N': 0, 'cfg': 'dev', 'feat': 'std', 'props': [prop]}]
+    for N in range(0, 5 if tier == 'quick' else 6):
+        if N <= (2 if tier == 'quick' else 3):
+            jobs.append({'kind': 'custom', 'module': 'values', 'func': 'run_clone_job', 'name': 'clone_eq', 'op': 'clone_eq', 'N': N, 'cfg': 'dev', 'feat': 'std', 'props': [prop]})
+        jobs.append({'kind': 'custom', 'module': 'values', 'func': 'run_clear_job', 'name': 'clear_fresh', 'op': 'clear_fresh', 'N': N, 'cfg': 'dev', 'feat': 'std', 'props': [prop]})
+        jobs.append({'kind': 'custom', 'module': 'values', 'func': 'run_reserve_job', 'name': 'reserve', 'op': 'reserve', 'N': N, 'cfg': 'dev', 'feat': 'std', 'props': [prop]})
+    return jobs
+
+
 def plan(prop, tier):
     jobs = mutator_jobs(prop, tier)
+    if prop == 'C13': jobs += value_jobs(prop, tier)
+    if prop == 'C08': jobs += [j for j in lookup_jobs(prop, tier) if j['N'] >= 1]
+    if prop == 'C11': jobs += lookup_jobs(prop, tier)
+    if prop in ('C06', 'C07'): jobs += multi_jobs(prop, tier)
     if prop in ('C02', 'C09', 'C10'): jobs += iter_jobs(prop, tier)
     return jobs
 
